@@ -108,6 +108,33 @@ namespace PugiXmlExtensions
 		return false;
 	}
 
+	template <typename T, std::enable_if_t<std::is_arithmetic_v<T>, int> = 0>
+	bool LoadValue(const pugi::xml_attribute& attr, T& value, const SerializationOptions& serializationOptions)
+	{
+		try
+		{
+			value = Convert::To<T>(attr.as_string());
+			return true;
+		}
+		catch (const std::out_of_range&)
+		{
+			if (serializationOptions.overflowNumberPolicy == OverflowNumberPolicy::ThrowError)
+			{
+				throw SerializationException(SerializationErrorCode::Overflow,
+					std::string("The size of target field is not sufficient to deserialize number: ") + attr.as_string());
+			}
+		}
+		catch (...)
+		{
+			if (serializationOptions.mismatchedTypesPolicy == MismatchedTypesPolicy::ThrowError)
+			{
+				throw SerializationException(SerializationErrorCode::MismatchedTypes,
+					std::string("The type of target field does not match the value being loaded: ") + attr.as_string());
+			}
+		}
+		return false;
+	}
+
 	inline bool LoadValue(const pugi::xml_node& node, std::nullptr_t&, const SerializationOptions&) {
 		return node.empty();
 	}
@@ -313,34 +340,19 @@ public:
 				return std::is_null_pointer_v<T>;
 			}
 
-			if constexpr (std::is_same_v<T, bool>) {
+			if constexpr (std::is_null_pointer_v<T>) {
+				return true;
+			}
+			else if constexpr (std::is_same_v<T, bool>)
+			{
 				value = attr.as_bool();
+				return true;
 			}
-			else if constexpr (std::is_integral_v<T>)
+			else
 			{
-				if constexpr (std::is_same_v<T, int64_t>) {
-					value = attr.as_llong();
-				}
-				else if constexpr (std::is_same_v<T, uint64_t>) {
-					value = attr.as_ullong();
-				}
-				else if constexpr (std::is_unsigned_v<T>) {
-					value = static_cast<T>(attr.as_uint());
-				}
-				else {
-					value = static_cast<T>(attr.as_int());
-				}
+				// Convert with range checking (`as_int()` with `static_cast` silently wrapped values which do not fit the target type)
+				return PugiXmlExtensions::LoadValue(attr, value, this->GetOptions());
 			}
-			else if constexpr (std::is_floating_point_v<T>)
-			{
-				if constexpr (std::is_same_v<T, float>) {
-					value = attr.as_float();
-				}
-				else if constexpr (std::is_same_v<T, double>) {
-					value = attr.as_double();
-				}
-			}
-			return true;
 		}
 		else
 		{
